@@ -252,6 +252,26 @@ def run_case(c, case):
         _REG[id(m._invariant)] = {"spec": case["spec"], "family": case["family"], "case": case,
                                   "do_deviation_twin": not case["opts"].get("deviation") and not case.get("shock_means")}
         try:
+            if not case["opts"].get("deviation") and case["data_seed"] % 2 == 0:
+                # history of the model object: a deviation-mode run (filter and simulation) BEFORE the level-mode run on the
+                # same solved model -- the deviation solution must be a separate object, not the stored solution zeroed in place
+                import irispie as ir
+                try:
+                    with rt.quiet(), np.errstate(all="ignore"):
+                        sdb = ir.Databox.steady(m, span)
+                        ddb = data.copy()
+                        logly = m.get_log_status()
+                        for q in case["spec"]["mvars"]:
+                            if q["name"] in ddb:
+                                ddb[q["name"]] = (ddb[q["name"]] / sdb[q["name"]]) if logly.get(q["name"]) else (ddb[q["name"]] - sdb[q["name"]])
+                        kw = dict(case["opts"], deviation=True)
+                        _REG[id(m._invariant)]["busy"] = True
+                        m.kalman_filter(ddb, span, **kw)
+                        m.simulate(ir.Databox.zero(m, span), span, deviation=True)
+                except Exception:
+                    pass
+                finally:
+                    _REG[id(m._invariant)]["busy"] = False
             with rt.quiet(), np.errstate(all="ignore"):
                 m.kalman_filter(data, span, return_info=True, **case["opts"])
         except Exception as exc:
